@@ -24,6 +24,8 @@ W = {
          [{'size': 1, 'self': 0, 'txns': {'0': txn(Fee=272001, NumAppArgs=1, RekeyTo=FRESH)}}]),
  'F06': ("#pragma version 6\nint 0\nstore 0\ntop:\nload 0\nint 1\n<\nbz exit\ngtxn 0 Amount\npop\nload 0\nint 1\n+\nstore 0\nb top\nexit:\nint 1\nreturn\n",
          [{'size': 16, 'self': 3, 'txns': {'0': txn(), '3': txn()}}]),
+ 'F08': ("#pragma version 6\ntxn RekeyTo\naddr AAAAAAAAAAAAAAAAAAAAAAAAAAAAAAAAAAAAAAAAAAAAEVAL4QAJS7JHB4\n==\nassert\nint 1\nreturn\n",
+         [{'size': 1, 'self': 0, 'txns': {'0': txn(RekeyTo='AAAAAAAAAAAAAAAAAAAAAAAAAAAAAAAAAAAAAAAAAAAAEVAL4QAJS7JHB4')}}]),
  'F07': ("#pragma version 6\nb main\nf:\nretsub\nmain:\nint 1\ncallsub f\n",
          [{'size': 1, 'self': 0, 'txns': {'0': txn(Fee=272001, RekeyTo=FRESH)}}]),
 }
